@@ -147,18 +147,43 @@ func clip(s string) string {
 	return s
 }
 
+// asciiJSON: the JSON files of the current case are written the way ASCII-only writers do: every character outside
+// ASCII as a \u escape, characters beyond the BMP as a surrogate pair
+var asciiJSON bool
+
+func jsonASCII(s string) string {
+	var b strings.Builder
+	for _, r := range s {
+		switch {
+		case r < 128:
+			b.WriteRune(r)
+		case r > 0xFFFF:
+			r -= 0x10000
+			fmt.Fprintf(&b, "\\u%04x\\u%04x", 0xD800+(r>>10), 0xDC00+(r&0x3FF))
+		default:
+			fmt.Fprintf(&b, "\\u%04x", r)
+		}
+	}
+	return b.String()
+}
+
 // withNulls: the current case holds null values, which TOML cannot express: it is written as YAML and JSON only.
 var withNulls bool
 
 func emitAll(m gen.Map) map[string]string {
-	if withNulls {
-		return map[string]string{"yaml": gen.YAML(m), "json": gen.JSON(m)}
+	j := gen.JSON(m)
+	if asciiJSON {
+		j = jsonASCII(j)
 	}
-	return map[string]string{"yaml": gen.YAML(m), "json": gen.JSON(m), "toml": gen.TOML(m)}
+	if withNulls {
+		return map[string]string{"yaml": gen.YAML(m), "json": j}
+	}
+	return map[string]string{"yaml": gen.YAML(m), "json": j, "toml": gen.TOML(m)}
 }
 
 func genCase(rt *rapid.T) Case {
 	withNulls = rapid.IntRange(0, 3).Draw(rt, "null-values") == 0
+	asciiJSON = rapid.Bool().Draw(rt, "ascii-only-json")
 	cfg := gen.ValidConfig(rt, gen.ConfigOpts{Dir: "@WORK@", Nulls: withNulls})
 	c := Case{}
 	if withNulls {
